@@ -56,6 +56,43 @@ fn value_dims(cat: &Catalogue, v: &VValue) -> Option<DimVec> {
     }
 }
 
+/// Does the run-time value `v` conform to the checker's type `t` as far as dimensions go?
+/// Quantities are compared by the dimension of the unit they carry; structs and lists are
+/// walked; anything that is not a quantity is not this property's business.
+fn conforms(cat: &Catalogue, t: &VType, v: &VValue, checked: &mut usize) -> Result<(), String> {
+    match (t, v) {
+        (VType::Dim(p), VValue::Quantity(_)) => {
+            let want = DimVec::from_pairs(p);
+            let got = value_dims(cat, v);
+            *checked += 1;
+            if got.as_ref() == Some(&want) {
+                Ok(())
+            } else {
+                Err(format!("the checker's type is {want} but the run-time value {v:?} carries a unit of dimension {:?}", got.map(|d| d.to_string())))
+            }
+        }
+        (VType::Open(text), VValue::Quantity(_)) => {
+            *checked += 1;
+            Err(format!("the checker's type is still polymorphic (`{text}`) but the run-time value {v:?} carries one particular unit"))
+        }
+        (VType::Struct(_, fields), VValue::Struct(_, vals)) => {
+            for (fname, ft) in fields {
+                if let Some((_, fv)) = vals.iter().find(|(n, _)| n == fname) {
+                    conforms(cat, ft, fv, checked).map_err(|e| format!("field `{fname}`: {e}"))?;
+                }
+            }
+            Ok(())
+        }
+        (VType::List(inner), VValue::List(items)) => {
+            for it in items {
+                conforms(cat, inner, it, checked).map_err(|e| format!("list element: {e}"))?;
+            }
+            Ok(())
+        }
+        _ => Ok(()),
+    }
+}
+
 fn check(program: &Vec<TIns>, st: &mut Stats) -> CheckResult {
     st.eval();
     let cat = prelude_catalogue();
@@ -79,7 +116,8 @@ fn check(program: &Vec<TIns>, st: &mut Stats) -> CheckResult {
     let mut completed = true;
     let mut checked_values = 0usize;
     let mut has_user_units = false;
-    let mut pending: Vec<(String, DimVec)> = vec![];
+    let mut types: Vec<(String, VType)> = vec![];
+    let mut rejected = false;
     for (i, s) in stmts.iter().enumerate() {
         let o = eval(&mut ctx, &s.text);
         let here = || format!("statement {i}: `{}`\nprogram:\n{}", s.text, source[..=i].join("\n"));
@@ -105,33 +143,34 @@ fn check(program: &Vec<TIns>, st: &mut Stats) -> CheckResult {
                     break;
                 }
                 _ => {
-                    return Err(Failure::new(
-                        class("well-dimensioned-statement-rejected"),
-                        format!("a statement that is dimensionally consistent by construction was rejected: {:?}/{}: {}; {}", e.stage, e.kind, e.message, here()),
-                    ));
+                    // The property speaks about ACCEPTED inputs. A consistent program that is
+                    // rejected is C02's business (the same generator is used there, with the
+                    // acceptance oracle); here the case simply ends.
+                    st.label("statement-rejected (not judged here, see C02)");
+                    completed = false;
+                    rejected = true;
+                    let _ = here;
+                    break;
                 }
             }
         }
         if s.text.starts_with("unit ") {
             has_user_units = true;
         }
-        // the checker's type of the statement equals the reference dimension
-        if let (Some(want), Some(info)) = (&s.dim, o.stmts.last()) {
-            match info.vtype.as_ref().and_then(vtype_dims) {
-                Some(got) if &got == want => {}
-                other => {
-                    return Err(Failure::new(
-                        class("inferred-type-differs"),
-                        format!("the checker's type is {:?} ({:?}) but dimensional analysis gives {want}; {}", other.map(|d| d.to_string()), info.vtype, here()),
-                    ));
+        // the checker's type of what this statement binds (the latest definition of a name counts)
+        if s.text.starts_with("let ") {
+            if let (Some((name, _)), Some(info)) = (s.defines.first(), o.stmts.last()) {
+                if let Some(t) = &info.vtype {
+                    if let (Some(want), Some(got)) = (&s.dim, vtype_dims(t)) {
+                        if &got != want {
+                            // not a C01 matter by itself (C02 compares reported types with
+                            // dimensional analysis); the run-time comparison below is
+                            st.label("checker-type-differs-from-reference (see C02)");
+                        }
+                    }
+                    types.retain(|(n, _)| n != name);
+                    types.push((name.clone(), t.clone()));
                 }
-            }
-        }
-        for (name, d) in &s.defines {
-            if let Some(d) = d {
-                // a redefinition replaces the expectation for that name
-                pending.retain(|(n, _)| n != name);
-                pending.push((name.clone(), d.clone()));
             }
         }
     }
@@ -143,50 +182,19 @@ fn check(program: &Vec<TIns>, st: &mut Stats) -> CheckResult {
     } else {
         &cat
     };
-    for (name, want) in &pending {
+    // every quantity bound to a global (directly, as a struct field or as a list element) carries
+    // a unit whose dimension equals the type THE CHECKER assigned to it
+    for (name, t) in &types {
         let Some(v) = ctx.verif_raw_global(name) else { continue };
-        let got = value_dims(cat_ref, &v);
-        if got.as_ref() != Some(want) {
+        if let Err(what) = conforms(cat_ref, t, &v, &mut checked_values) {
             return Err(Failure::new(
                 class("runtime-unit-differs-from-type"),
-                format!(
-                    "`{name}` has type {want} but its run-time value {:?} carries a unit of dimension {:?}\nprogram:\n{}",
-                    v, got.map(|d| d.to_string()), source.join("\n")
-                ),
+                format!("`{name}`: {what}\nprogram:\n{}", source.join("\n")),
             ));
         }
-        checked_values += 1;
     }
-    for (name, shape) in &g.shapes {
-        let Some(v) = ctx.verif_raw_global(name) else { continue };
-        let mismatch = |what: String| {
-            Err(Failure::new(
-                class("runtime-unit-differs-from-type"),
-                format!("{what}\nprogram:\n{}", source.join("\n")),
-            ))
-        };
-        match (shape, &v) {
-            (Shape::Struct(fields), VValue::Struct(_, vals)) => {
-                for (fname, want) in fields {
-                    let Some((_, fv)) = vals.iter().find(|(n, _)| n == fname) else {
-                        return mismatch(format!("struct `{name}` has no field {fname}: {v:?}"));
-                    };
-                    if value_dims(cat_ref, fv).as_ref() != Some(want) {
-                        return mismatch(format!("field `{name}.{fname}` has type {want} but holds {fv:?}"));
-                    }
-                    checked_values += 1;
-                }
-            }
-            (Shape::List(want), VValue::List(items)) => {
-                for it in items {
-                    if value_dims(cat_ref, it).as_ref() != Some(want) {
-                        return mismatch(format!("an element of list `{name}` (element type {want}) is {it:?}"));
-                    }
-                    checked_values += 1;
-                }
-            }
-            _ => return mismatch(format!("`{name}` has an unexpected shape: {v:?}")),
-        }
+    if rejected {
+        st.label("case-ended-at-a-rejected-statement");
     }
     st.label_n("quantities-checked", checked_values as u64);
     if g.features.inexact_float_exponent {
@@ -217,7 +225,7 @@ fn check(program: &Vec<TIns>, st: &mut Stats) -> CheckResult {
 fn run(cfg: &Cfg) -> Report {
     let mut rep = Report::new(
         cfg,
-        "proptest programs of 3-12 TypedGen instructions (each 1-4 statements) that are dimensionally consistent by construction: every expression is generated for a requested dimension vector from literals with prelude units of that dimension (base-unit products or named derived units), variables, + - * /, powers with integer, rational, decimal and composite compile-time exponents in ASCII and Unicode spellings, conditionals, conversions, sqrt/sqr/cbrt/abs/max/min, list functions, user-defined generic functions (annotated and inferred) instantiated at several dimensions, annotated functions, structs, lists, user dimensions with base and derived units, asserts, zeroth powers, exponents that contain `^` themselves, and redefinitions of a global at another dimension followed by a function that reads it. Each statement is evaluated as its own input. Oracle: no statement is rejected; run-time failures are limited to the documented value-dependent kinds, never a unit incompatibility; the checker's type of every definition equals the requested vector; the raw run-time value of every global, struct field and list element carries a unit whose dimension (RefDim over the direct unit definitions) equals that vector. non-trivial = the program has a rational/composite power, a generic function at >= 2 dimensions, or a struct/list of quantities, and ran to the end; distinct = program text",
+        "proptest programs of 3-12 TypedGen instructions (each 1-4 statements) that are dimensionally consistent by construction: every expression is generated for a requested dimension vector from literals with prelude units of that dimension (base-unit products or named derived units), variables, + - * /, powers with integer, rational, decimal and composite compile-time exponents in ASCII and Unicode spellings, conditionals, conversions, sqrt/sqr/cbrt/abs/max/min, list functions, user-defined generic functions (annotated and inferred) instantiated at several dimensions, annotated functions, structs, lists, user dimensions with base and derived units, asserts, zeroth powers, exponents that contain `^` themselves, and redefinitions of a global at another dimension followed by a function that reads it. Each statement is evaluated as its own input. Oracle (for accepted statements; a rejected one ends the case and is C02's business): run-time failures are limited to the documented value-dependent kinds, never a unit incompatibility; the raw run-time value of every global, struct field and list element carries a unit whose dimension (RefDim over the direct unit definitions) equals the type the checker reported for that definition (a type that is still polymorphic does not equal any particular unit). non-trivial = the program has a rational/composite power, a generic function at >= 2 dimensions, or a struct/list of quantities, and ran to the end; distinct = program text",
     );
     let cases = cfg.tier.pick(1500u32, 20000u32);
     rep.absorb(run_proptest(
@@ -234,6 +242,17 @@ fn run(cfg: &Cfg) -> Report {
         },
         check,
     ));
+    // generator health: the programs are consistent by construction, so (nearly) all of them
+    // must be accepted; if not, this check has looked at too little to say anything (exit 2)
+    if !rep.failed() {
+        let rejected = *rep.stats.labels.get("case-ended-at-a-rejected-statement").unwrap_or(&0) as f64;
+        let total = rep.stats.evaluations.max(1) as f64;
+        if rejected / total > 0.05 {
+            rep.infra_errors.push(format!(
+                "generator health: {rejected} of {total} programs that are consistent by construction were rejected (C02 judges that); too few accepted programs were examined"
+            ));
+        }
+    }
     rep
 }
 
